@@ -152,6 +152,18 @@ def ph_body(ctx, case):
                 ctx.count("step-with-factor-above-100-and-product-below-100")
         if np.any((fraw > 0) & (fraw < 1e-3) & (w_old > 0)):
             ctx.count("step-with-factor-below-1e-3")
+        # the factor actually applied must be the hooked |I| cos(theta) if that lies in [1e-3, 100] and 0 otherwise, whatever weight the walker
+        # carries (then zeroed if the product exceeds 100)
+        g = np.where(np.isnan(fraw), 0.0, fraw)
+        g = np.where((g < 1e-3) | (g > 100.0), 0.0, g)
+        w_exp = w_old * g
+        w_exp = np.where(w_exp > 100.0, 0.0, w_exp)
+        edge = (np.abs(fraw - 1e-3) < 1e-12) | (np.abs(fraw - 100.0) < 1e-9) | (np.abs(w_old * fraw - 100.0) < 1e-9)
+        badw = (np.abs(w_new - w_exp) > 1e-10 * np.maximum(1.0, np.abs(w_exp))) & ~edge & np.isfinite(w_new)
+        if badw.any():
+            k = int(np.argmax(badw))
+            ctx.fail(f"{tagp}:factor-depends-on-carried-weight-or-leaves-window", case, f"step {s} walker {k}: weight {w_old[k]!r} -> {w_new[k]!r}, hooked factor {fraw[k]!r} gives {w_exp[k]!r}")
+            break
         if not check_step(ctx, case, tagp, s, w_old, w_new, float(np.asarray(pd["pop_control_ene_shift"])), "phaseless"):
             ok = False
             break
